@@ -1,7 +1,9 @@
 (* C16 -- DTD processing is off by default and allow_dtd changes nothing else: the default options
    are {allow_dtd = false; nodes_limit = u32::MAX} (read from the source by the translator); with
    allow_dtd = false the result is Err DtdDetected or identical to the result with allow_dtd = true;
-   an input without the string '<!DOCTYPE' gives identical results.
+   an input without the string '<!DOCTYPE' gives identical results; with allow_dtd = false no entity is ever
+   declared, and the total length of all text and attribute values (text_len + value_len, DefaultMain.v) of a
+   parsed document is at most the input length.
    Statements are pinned here (copied verbatim from the proof files by tools/pin_props.py);
    each is re-proved by `exact` and followed by Print Assumptions. *)
 From Coq Require Import Ascii String.
@@ -9,7 +11,7 @@ From Coq Require Import List NArith Bool PeanoNat Sorted.
 Import ListNotations.
 From RX Require Import Generated.
 From RX.Model Require Import Base CharClass Stream Tokenizer Doc Builder Parse Api.
-From RX.Proofs Require Import OptionsParam OptionsBuild OptionsMain OptionsDtd.
+From RX.Proofs Require Import OptionsParam OptionsBuild OptionsMain OptionsDtd DefaultEntities DefaultTokenizer DefaultContent DefaultText DefaultMain.
 Open Scope N_scope.
 
 (* ---- Proofs/OptionsMain.v ---- *)
@@ -32,3 +34,18 @@ Theorem C16_no_doctype_no_difference :
   parse text (opts false lim) = parse text (opts true lim).
 Proof. exact no_doctype_no_difference. Qed.
 Print Assumptions C16_no_doctype_no_difference.
+
+(* ---- Proofs/DefaultEntities.v ---- *)
+Theorem C16_no_entities_without_dtd :
+  forall text lim c c',
+  init_context text {| allow_dtd := false; nodes_limit := lim |} = Ok c ->
+  parse_document text context (token text) false c = Ok c' -> c_entities c' = [].
+Proof. exact no_entities_without_dtd. Qed.
+Print Assumptions C16_no_entities_without_dtd.
+
+(* ---- Proofs/DefaultMain.v ---- *)
+Theorem C16_content_le_input :
+  forall text lim d, valid_utf8_b text = true ->
+  parse text {| allow_dtd := false; nodes_limit := lim |} = Ok d -> text_len text d + value_len text d <= tlen text.
+Proof. exact content_le_input. Qed.
+Print Assumptions C16_content_le_input.
